@@ -6,7 +6,7 @@ import json, os, subprocess, concurrent.futures as cf
 from vlib.common import *
 
 NEG = [("NoExit", None), ("CloseStopsOnTokenError", None), ("BelowZero", None), ("NoReset", None), ("StaleGE", None), ("IgnoreDisabled", None),
-       ("OffByOne", None), ("AnyTokenOk", None)]
+       ("OffByOne", None), ("AnyTokenOk", None), ("StampOnSuccessOnly", None)]
 
 
 def _replay(run, vh, behs, label, shards=NCPU):
@@ -60,6 +60,20 @@ def run(t):
         if cfg == "Health_Gen_Stale.cfg" and not any(sum(1 for st in b["steps"] if st["a"] == "Tick") >= 7 for b in g.beh):
             raise NoVerdict("no generated behaviour reaches staleness")
         _replay(run, vh, g.beh, cfg)
+    # failing checks between long quiet stretches (8 steps, N = 2): a failed check is a completed check and restarts the
+    # staleness clock. Quick replays the behaviours that have both a failing check and five or more Ticks, thorough all.
+    g = run_tlc("Health_Gen", "Health_Gen_StaleErr.cfg", timeout=1200, workers=8)
+    tlc_must_pass(g, "StaleErr")
+    run.add_tlc(g, "Health_Gen_StaleErr.cfg")
+    behs = g.beh
+    if t == "quick":
+        behs = [b for b in behs if sum(1 for st in b["steps"] if st["a"] == "Tick") >= 5
+                and any(st["a"] == "Check" and "err" in st["o"].values() for st in b["steps"])]
+    if not any(any(st["a"] == "Check" and "err" in st["o"].values() for st in b["steps"][:k]) and
+               sum(1 for st in b["steps"][:k] if st["a"] == "Tick") >= 7 and b["steps"][k - 1]["h"]
+               for b in behs for k in range(1, len(b["steps"]) + 1)):
+        raise NoVerdict("StaleErr: no behaviour stays healthy through seven Ticks and a failing check")
+    _replay(run, vh, behs, "StaleErr")
     g = run_tlc("Health_Gen", "Health_Gen_T2.cfg", timeout=600, workers=8)
     tlc_must_pass(g, "T2")
     run.add_tlc(g, "Health_Gen_T2.cfg")
@@ -78,7 +92,7 @@ def run(t):
     for f in o["failures"]:
         run.violation(f["key"], f["desc"], f["replay"])
     run.cov["rule"] = ("every action sequence (Check with per-token outcomes ok/err[/timeout], Tick of half an interval, Close) of "
-                       "length 6 (9 in thorough) for N in 1..3 x disabled, enumerated exhaustively by TLC and replayed on a real "
+                       "length 6 (8 for N = 2 with failing checks between long quiet stretches; 9 in thorough) for N in 1..3 x disabled, enumerated exhaustively by TLC and replayed on a real "
                        "server.Server: real healthCheck via hook, /health through the real handler compared with the spec's Healthy "
                        "and counter after every step, goroutine exit watched after Close; two-token/timeout behaviours of length 3 "
                        "(seeded sample in quick); non-trivial = contains at least one Check")
